@@ -155,3 +155,41 @@ TEXT['C14'].update(
     level_text='Mixed: the equivalence laws are proved on the numpy-free universe; everything involving numpy / pandas / dicts is covered by the bounded stand-in only - hence "other".',
     level_note='Axioms validated against CPython on every run (==, container ==); structural induction over nesting depth is trusted. Known finding: transitivity among date types.',
     technique='contract-based deductive verification (AST-generated VCs over a tagged value universe, structural induction, z3/cvc5) + bounded run-time contract check')
+
+PROPS['C10'].update(level='other', explanation='Deductive (counted as proved, 433 obligations): drange from the real AST, one symbolic run per kind of bump - t0 == t1 gives [t0]; direction checks raise '
+    'ValueError exactly when the bump points away; integer / None bumps (rrule DAILY axiom + reverse + stride): starts at t0, j-th element t0 + j*n days, within the endpoints, maximal, strictly '
+    'monotone; timedelta loops with invariant res[k] == t0 + k*bump and variant; business-day bumps (filtered comprehension as a loop with the weekday-count invariant): every n-th weekday, complete, '
+    'reversed for negative n; fixed-length single periods by the rrule axiom, each step equal to the dt_bump token step of C09; compound and negative periods: loops over dt_bump by contract, '
+    'terminating for parts of one sign; agreement of n / timedelta(n) / "nd". Bounded only: the list rrule returns for positive month-based periods.')
+TEXT['C10'].update(
+    level_text='Mixed: every branch written in Python is proved for all dates of 1900-2300 and unbounded n; the branches that delegate to dateutil.rrule rest on an axiom for its fixed-length '
+               'frequencies (validated natively on samples) and the month-based single periods are bounded - hence "other".',
+    level_note='Trusted: rrule axioms (DAILY/WEEKLY/HOURLY/MINUTELY/SECONDLY), BUMP = fold of the C09 token step, date_range on datetime endpoints, token abstraction A1/A2, datetime axioms, '
+               'uninterpreted products constrained by recurrence instances. Known finding: sub-second starts are truncated by rrule.',
+    technique='contract-based deductive verification (AST-generated VCs, loop invariants incl. a filtered comprehension, z3/cvc5) + bounded run-time contract check')
+PROPS['C04'].update(level='other', explanation='Deductive (counted as proved, 46 obligations): ym normalisation, _ymd overflow law (keeps the day when it exists, rolls the excess into the following month, '
+    'd <= 0 rolls back), num2dt integer branches (yyyymmdd / ordinal / year: branch ranges and decode arithmetic), the dt dispatcher on one integer, on (y,m[,d[,h,mi,s]]) and on a tz-naive datetime, ymd '
+    'drops the time of day. Bounded (exhaustive over the 146097 days in the thorough tier, but through dateutil / numpy / pandas, so not proved): every string spelling in both dialects, wrong-dialect '
+    'rejection, numpy / pandas / date inputs, dt2str round trip.')
+TEXT['C04'].update(
+    level_text='Mixed: the integer arithmetic of the property is proved; the spellings that go through dateutil, numpy and pandas are enumerated (exhaustively in the thorough tier) but not proved - "other".',
+    level_note='Trusted: datetime axioms incl. fromordinal, as_list(tuple) (C19), kind-based type predicates. Excluded by path precondition: NaT, time zones, floats, i <= 1500 (reads the clock), excel / timestamp branches.',
+    technique='contract-based deductive verification (AST-generated VCs, z3/cvc5) + exhaustive bounded run-time contract check over the stated finite domain')
+PROPS['C16'].update(level='other', explanation='Deductive (counted as proved, 404 obligations): ulist +, |, -, & for list and element arguments (type(self), no duplicates, exact membership, first-occurrence order, '
+    'every unique=True fast path justified); dictattr / Dict key algebra (-, &, +, |, [key], [tuple], [list], attribute access, relabel, keys, copy) for every subclass at once via a symbolic class tag: '
+    'same class, new object, exact keys, untouched values, key order, receiver unchanged (frame obligations at every mutation site); Dict.__call__: loop invariants with ghost rounds, each callable '
+    'evaluated exactly once after its callable dependencies, ValueError only when >= 2 callables remain and none is independent. Bounded only: the dedup pipeline of the ulist constructor, relabel() helper, '
+    'Dict.__add__ (tree_update, C15), keyword-order independence (an argument over the proved obligations).')
+TEXT['C16'].update(
+    level_text='Mixed: the operators and the evaluation loop are proved for all lists / mappings / dependency graphs; the constructor pipeline and the order-independence conclusion are bounded / argued - "other".',
+    level_note='Assumed: DEDUP contract of ulist.__init__, dict.__init__(**kw), getargs uninterpreted, element == is an equivalence consistent with hash (no NaN). Excluded: tuple paths, dotted keys, _-prefixed attributes. Known finding: Dict + Dict-subclass.',
+    technique='contract-based deductive verification (AST-generated VCs over map / set / list theories, loop invariants with ghost state, z3/cvc5) + bounded run-time contract check')
+PROPS['C18'].update(level='other', explanation='Deductive (counted as proved, 170 obligations): cache_func.wrapped with a ghost call counter (miss: one evaluation and store; hit: none; unhashable: fall through; second call '
+    'from the first call state returns the first result without evaluating), cache() refusing methods; try_value.wrapped with symbolic repeat (fallback exactly when f raises, evaluation counts), try_back, '
+    'the try_* family defaults read from the source; kwargs_support passes exactly the keywords in getargs(f); wrapper.__init__ unwrapping (W(W(g)) and chains: no double wrapping, arguments untouched), '
+    'wrapper.__call__ forwarding. Bounded only (exhaustive over signature shapes): getcallargs vs inspect.getcallargs, call_with_callargs, argspec forwarding, loops / pd2np transparency.')
+TEXT['C18'].update(
+    level_text='Mixed: the wrapper behaviours (where call counts matter and tests cannot observe all call sequences) are proved over an uninterpreted f; the signature-binding re-implementation is '
+               'exhaustively enumerated over shapes but not proved - "other".',
+    level_note='Assumed: _prehash is an uninterpreted key function, getargs / getargspec uninterpreted, copy.copy of the fallback, time.sleep / logger calls. Known findings: kwargs_support with **kwargs, cache key merging, set arguments.',
+    technique='contract-based deductive verification (AST-generated VCs, ghost call counters, object heap for wrappers, z3/cvc5) + bounded run-time contract check')
